@@ -112,6 +112,7 @@ theorem oldInv_step (s : State) (op : Op) (hi : OldInv s)
   | unknownStat => exact ⟨⟨h1, h2, h2f, h3, h4, h5⟩, rfl⟩
   | read => exact ⟨⟨h1, h2, h2f, h3, h4, h5⟩, rfl⟩
   | readObs v => exact ⟨⟨h1, h2, h2f, h3, h4, h5⟩, rfl⟩
+  | foreign w => exact ⟨⟨h1, h2, h2f, h3, h4, h5⟩, rfl⟩
 
 theorem oldInv_run (s : State) (h : List Op) (hi : OldInv s) (hq : Quiet h) : OldInv (run stepOld s h).1 := by
   induction h generalizing s with
@@ -143,10 +144,10 @@ theorem old_observation_fresh_partial (h : List Op) (op : Op) (hq : Quiet h)
     refine ⟨hv.1, hv.2.1, hv.2.2, Or.inl rfl, Or.inl rfl, rfl⟩
   rw [(oldInv_step _ op hf hop).2]
 
-example : Quiet [.statDs "hs", .partition 3 4, .unknownStat, .read, .statDa "tp", .readObs 0] := by
+example : Quiet [.statDs "hs", .partition 3 4, .unknownStat, .read, .statDa "tp", .readObs 0, .foreign "to_ww3"] := by
   intro op hop
   simp at hop
-  rcases hop with rfl | rfl | rfl | rfl | rfl | rfl <;> simp
+  rcases hop with rfl | rfl | rfl | rfl | rfl | rfl | rfl <;> simp
 
 example : lastObs stepNew [.statDs "hs", .editEfth, .assignDir, .partition 2 2] (.statDs "hs") = some (.stat 1 1 0 true) := by
   decide
